@@ -16,7 +16,7 @@ using namespace rt;
   X(EXTRACT_KEY_INS_HINT) X(NODE_FROM_TEMP) X(NODE_FROM_TEMP_HINT) X(EMPTY_NODE_INS) X(MERGE) X(MERGE_TEMP)           \
   X(MERGE_OTHER) X(MERGE_OTHER2) X(SWAP_MEMBER) X(SWAP_FREE) X(COPY_ASSIGN) X(MOVE_ASSIGN) X(COPY_CONSTRUCT) X(MOVE_CONSTRUCT)        \
   X(COPY_ASSIGN_T) X(MOVE_ASSIGN_T) X(SWAP_T) X(MOVE_CTOR_T) X(COPY_CTOR_T) X(CTOR_RANGE) X(CTOR_IL) X(OPEQ_IL)       \
-  X(FROM_VECTOR) X(ASSIGN_VECTOR) X(STEAL_VECTOR) X(RESERVE) X(SHRINK)
+  X(FROM_VECTOR) X(ASSIGN_VECTOR) X(STEAL_VECTOR) X(RESERVE) X(SHRINK) X(SELF_COPY_ASSIGN) X(SELF_SWAP) X(SELF_MERGE)
 
 enum Kind {
 #define X(n) n,
@@ -160,7 +160,7 @@ inline void enumerate(const World &w, const Opts &o, std::vector<Op> &out) {
   static const int few_src[] = {S_PTR, S_INPUT, S_LIST, S_MOVE_PTR};
   const std::vector<int> seqs = all_seq_codes(o.seq_len);
   const std::vector<int> seqs2 = all_seq_codes(std::min(o.seq_len, 2));
-  const int cap_lim = (CFG_KIND == 0 && CFG_VEC == 2) ? 8 : 1000;
+  const int cap_lim = kFixedCap ? kFixedCap : 1000;  // what a temporary of the set's own type can hold
   for (int i = 0; i < w.K; ++i) {
     const int sz = (int)w.m[i]->size();
     auto add = [&](int k, int a = 0, int b = 0, int c = 0, int j = 0) {
@@ -168,14 +168,13 @@ inline void enumerate(const World &w, const Opts &o, std::vector<Op> &out) {
       op.k = k; op.i = i; op.j = j; op.a = a; op.b = b; op.c = c;
       out.push_back(op);
     };
-    (void)cap_lim;
     if (o.hint_only) {
       for (int key = 0; key < KEYS; ++key) {
         add(INSERT_C, key);
         add(ERASE_KEY, key);
         for (int h = 0; h <= sz; ++h) { add(HINT_C, h, key); add(HINT_M, h, key); add(EMPLACE_HINT, h, key); }
       }
-      if (kFlat && o.extras) { add(RESERVE, KEYS + 1); add(SHRINK); }
+      if (kFlat && o.extras) { add(RESERVE, std::min(KEYS + 1, cap_lim)); add(SHRINK); }
       continue;
     }
     for (int key = 0; key < KEYS; ++key) {
@@ -199,12 +198,13 @@ inline void enumerate(const World &w, const Opts &o, std::vector<Op> &out) {
     for (int a = 0; a <= sz; ++a)
       for (int b = a; b <= sz; ++b) add(ERASE_RANGE, a, b);
     add(CLEAR);
+    add(SELF_COPY_ASSIGN); add(SELF_SWAP); add(SELF_MERGE);
     for (int mask = 0; mask < (1 << KEYS); ++mask) {
       add(ERASE_LOOP, mask);
 #if __cplusplus >= 202002L
       add(ERASE_IF, mask);
 #endif
-      if (o.temps) {
+      if (o.temps && __builtin_popcount((unsigned)mask) <= cap_lim) {
         add(MERGE_TEMP, mask); add(MERGE_OTHER, mask);
         if (kSmallSet) add(MERGE_OTHER2, mask);
         add(COPY_ASSIGN_T, mask); add(MOVE_ASSIGN_T, mask); add(SWAP_T, mask); add(MOVE_CTOR_T, mask); add(COPY_CTOR_T, mask);
@@ -224,7 +224,7 @@ inline void enumerate(const World &w, const Opts &o, std::vector<Op> &out) {
     if (kFlat && o.extras) {
       for (int code : seqs) { add(FROM_VECTOR, code); add(ASSIGN_VECTOR, code); }
       add(STEAL_VECTOR);
-      for (int n = 0; n <= KEYS + 1; ++n) add(RESERVE, n);
+      for (int n = 0; n <= std::min(KEYS + 1, cap_lim); ++n) add(RESERVE, n);
       add(SHRINK);
     }
     for (int j = 0; j < w.K; ++j) {
